@@ -27,10 +27,12 @@ Shapes == << <<1, 0, 0, 40, FALSE, 5>>, <<1, 2, 0, 40, TRUE, 2>>, <<2, 1, 3, 30,
 Xs == {0, 1, -3, 6}
 Ys == {0, -2, 4}
 Zs == {-1, 0, 5, 20, 30, 31, 40, 41}
+\* attenuator step in centimetres: commensurate with every beam length (50), and not (30, 7)
+StepsCm == {50, 30, 7}
 
-VARIABLES mix, shape, x, y, z
-vars == <<mix, shape, x, y, z>>
-Init == mix \in 1..Len(Mixes) /\ shape \in 1..Len(Shapes) /\ x \in Xs /\ y \in Ys /\ z \in Zs
+VARIABLES mix, shape, x, y, z, step
+vars == <<mix, shape, x, y, z, step>>
+Init == mix \in 1..Len(Mixes) /\ shape \in 1..Len(Shapes) /\ x \in Xs /\ y \in Ys /\ z \in Zs /\ step \in StepsCm
 Next == UNCHANGED vars
 Spec == Init /\ [][Next]_vars
 
@@ -53,6 +55,15 @@ R2den == SX2 * SY2
 Clamped == Sh[5] /\ R2num > Sh[6] * Sh[6] * R2den
 Class == IF z < 0 THEN "zero_before_source" ELSE IF z > Sh[4] THEN "zero_beyond_length" ELSE IF Clamped THEN "zero_outside_clamp" ELSE "value"
 
+\* ---- the tabulation lattice of the attenuation (SingleRayAttenuator._calc_attenuation): nbeam nodes spread evenly over the
+\* beam length, at least 4 and at most one step apart; the node spacing is length / (nbeam - 1), which is the step only when
+\* the step divides the length.  For a uniform plasma the attenuation at the nodes is exact whatever the spacing.
+CeilDiv(p, q) == IF p % q = 0 THEN p \div q ELSE (p \div q) + 1
+LenCm == (Sh[4] * 100) \div D
+NBeam == LET n == 1 + CeilDiv(LenCm, step) IN IF n < 4 THEN 4 ELSE n
+OnNode == z >= 0 /\ z <= Sh[4] /\ (z * (NBeam - 1)) % Sh[4] = 0
+SpacingAtMostStep == LenCm <= step * (NBeam - 1)
+
 \* ---- properties of the formula
 \* on-axis density never increases with z: the exponent S z is non-decreasing (S >= 0)
 Monotone == S >= 0
@@ -63,6 +74,6 @@ NoStoppingConservesFlux == (mix = 4) => S = 0
 DirX == x * z * z * Sh[2] * Sh[2]          \* e_x numerator over SX2 (times D ...), e_z = z
 Streamline == z > 0 => DirX * 1 = (x * z * Sh[2] * Sh[2]) * z
 
-EmitCase == PrintT(ToJson([mix |-> M, shape |-> Sh, D |-> D, x |-> x, y |-> y, z |-> z, class |-> Class, S |-> S, z2n |-> Z2N, neq |-> NEq,
+EmitCase == PrintT(ToJson([mix |-> M, shape |-> Sh, D |-> D, step_cm |-> step, nbeam |-> NBeam, on_node |-> OnNode, x |-> x, y |-> y, z |-> z, class |-> Class, S |-> S, z2n |-> Z2N, neq |-> NEq,
                            sx2 |-> SX2, sy2 |-> SY2, dir |-> << <<x * z * z * Sh[2] * Sh[2], SX2>>, <<y * z * z * Sh[3] * Sh[3], SY2>>, <<z, 1>> >>]))
 =============================================================================
